@@ -713,7 +713,7 @@ def stream_programs(ctx, interp, cov):
         if f.endswith(".nelua") and os.path.exists(os.path.join(cdir, f[:-6] + ".lua")):
             progl.append(("corpus:" + f, vlib.read(os.path.join(cdir, f)), vlib.read(os.path.join(cdir, f[:-6] + ".lua")), {}))
     import random
-    for i in range(ctx.scale(60, 600)):
+    for i in range(ctx.scale(120, 600)):
         seed = rng.getrandbits(40)
         n, l, st = progs.gen_program(random.Random(seed), rng.choice([12, 25, 40]), "modx" if rng.random() < .3 else None)
         progl.append(("seed:%d" % seed, n, l, st))
